@@ -236,6 +236,8 @@ class ServeMultiPeriodManifest(RequestHandlerBase):
         except ValueError as e:
             logging.info('Invalid CGI parameters: %s', e)
             return flask.make_response('Invalid CGI parameters', 400)
+        # there is no patch location for a multi-period manifest
+        options.update(patch=False)
         try:
             dash = ManifestContext(
                 manifest=current_manifest, options=options, stream=None,
